@@ -264,9 +264,10 @@ class Flow:
       ('other', bi, si)    anything else (binop, discriminant, ...)
     """
 
-    def __init__(self, fn, extra_pass=None):
+    def __init__(self, fn, extra_pass=None, only_extra=False):
         self.fn = fn
         self.extra_pass = extra_pass or (lambda t: False)
+        self.only_extra = only_extra    # do not use the default pass-through set (order/content-sensitive analyses)
         self._memo = {}
 
     def origins(self, local, fields=()):
@@ -301,7 +302,7 @@ class Flow:
                 sub = fields
             if d["kind"] == "call":
                 t = d["term"]
-                if (is_passthrough(t) or self.extra_pass(t)) and t["args"]:
+                if ((not self.only_extra and is_passthrough(t)) or self.extra_pass(t)) and t["args"]:
                     a0 = t["args"][0]
                     if a0["k"] in ("copy", "move"):
                         out |= self._orig(a0["pl"]["l"], tuple(place_fields(a0["pl"])) + sub, seen)
